@@ -1,4 +1,45 @@
-From HP Require Import Base.Prelude KV.Types KV.FS KV.Handle KV.Run.
-Example C17_smoke : snapshot kv_init <> [].
-Proof. vm_compute. discriminate. Qed.
-Print Assumptions C17_smoke.
+(* C17 -- Closed handles fail cleanly and handles never resurrect removed names.
+   Model: KV/Handle.v.  Part three of the property (a write through an older handle never makes a
+   removed or renamed name exist again) is FALSE of the code and of the faithful model: save() writes the
+   handle's whole record back under the path remembered at open -- see C17_resurrection_refuted. *)
+From HP Require Import Base.Prelude Base.Path KV.Types KV.FS KV.Handle KV.Run KV.HandleProofs.
+Open Scope N_scope.
+
+(* After Close every method fails with an error matching ErrClosed naming the handle's path, and
+   touches neither the store nor any file's bytes. *)
+Theorem C17_closed_handle_fails_cleanly : forall st i o h,
+  nth_error (st_handles st) i = Some h -> h_closed h = true ->
+  hres_err (snd (hstep st i o)) = Some (closed_err h)
+  /\ st_store (fst (hstep st i o)) = st_store st /\ st_heap (fst (hstep st i o)) = st_heap st.
+Proof. exact closed_fails. Qed.
+Print Assumptions C17_closed_handle_fails_cleanly.
+
+(* Handles are independent: closing, seeking, reading or writing through handle i never changes any
+   other handle's position, flags or validity. *)
+Theorem C17_handles_independent : forall st i o j,
+  i <> j -> nth_error (st_handles (fst (hstep st i o))) j = nth_error (st_handles st) j.
+Proof. exact hstep_independent. Qed.
+Print Assumptions C17_handles_independent.
+
+(* Close itself: the first succeeds, marks only this handle closed; a second Close fails. *)
+Theorem C17_close_then_closed : forall st i h,
+  nth_error (st_handles st) i = Some h -> h_closed h = false ->
+  snd (hstep st i HClose) = HRErr None
+  /\ exists h', nth_error (st_handles (fst (hstep st i HClose))) i = Some h' /\ h_closed h' = true.
+Proof.
+  intros st i h E C. unfold hstep. rewrite E.
+  assert (A : allowed (h_wrap h) HClose = true) by (destruct (h_wrap h); reflexivity).
+  rewrite A. cbn [negb]. rewrite C. cbn [fst snd]. split; [reflexivity|].
+  exists (with_closed h). split; [|reflexivity].
+  unfold put_handle, set_handles; simpl. apply nth_error_list_set_eq.
+  apply nth_error_Some. congruence.
+Qed.
+Print Assumptions C17_close_then_closed.
+
+(* Refuted: after Remove, a write through a handle opened earlier makes the old name exist again. *)
+Theorem C17_resurrection_refuted :
+  let ops := [WriteFile (S "a") [1;2] 420; Open (S "a") 2 0; Remove (S "a"); H 0 (HWrite [7])] in
+  map fst (snd (last (run kv_init [WriteFile (S "a") [1;2] 420; Open (S "a") 2 0; Remove (S "a")]) (VOk, []))) = [dot]
+  /\ map fst (snd (last (run kv_init ops) (VOk, []))) = [dot; S "a"].
+Proof. vm_compute. auto. Qed.
+Print Assumptions C17_resurrection_refuted.
